@@ -23,6 +23,7 @@ RULE = (
     "scalar+pseudo-scalar) x adversarial inner 1-D models. Non-trivial: control defect of the inner model >= 0.05 and g != e; "
     "distinct by configuration."
 )
+RULE += " Also: inference_mode toggle histories, empty and shuffled operator lists, inner models with state in aux_data, inner models carrying equivariant=True."
 ASSUMPTIONS = ["reference action (d=2,3 and the 1-D action)", "tolerance 1e-4 of the trace scale (grey to 1e-3)"]
 ANCHORS = ["ginjax.models:GroupAverage.__call__", "ginjax.models:Climate1D.__call__", "ginjax.models:Climate1D.to1d", "ginjax.models:Climate1D.from1d", "ginjax.models:Climate1D.get_1d_signature", "ginjax.models:ModelWrapper.__call__"]
 MIN_NONTRIVIAL = {"quick": 40, "thorough": 500}
